@@ -193,8 +193,15 @@ def gen_est_cases(rng, tier, retries):
         evs = []
         for _ in range(rng.randrange(2, 12)):
             k = rng.randrange(K)
-            if rng.random() < 0.22:
+            x = rng.random()
+            if x < 0.22:
                 evs.append({"kind": "del", "k": k, "nth": rng.randrange(4)})
+                continue
+            if x < 0.30:
+                # Session Modification creating a PDR whose PDI has F-TEID(CHOOSE) and/or an explicit F-TEID
+                t = rng.choice([0, 0, (off + 1) % U32 or 1, (off + 2) % U32 or 1, (off + 3) % U32 or 1, M, 77])
+                evs.append({"kind": "mod", "k": k, "nth": rng.randrange(4), "ch": rng.random() < 0.6, "teid": t,
+                            "pdr_id": 100 + len(evs), "expl_first": rng.random() < 0.4})
                 continue
             pdrs = []
             ids = rng.sample(range(1, 40), rng.randrange(0, 5))
@@ -219,6 +226,8 @@ def gen_est_cases(rng, tier, retries):
     ch2 = {"id": 2, "ok": True, "ch": True, "teid": 0, "ip": 0}
     e = lambda k, **kw: dict({"kind": "est", "k": k, "aok": True, "dok": True, "pdrs": [ch, ch2], "nth": 0}, **kw)
     d = lambda k, nth=0: {"kind": "del", "k": k, "nth": nth}
+    md = lambda k, nth, chf, t, pid, first=False: {"kind": "mod", "k": k, "nth": nth, "ch": chf, "teid": t, "pdr_id": pid, "expl_first": first}
+    plain = {"id": 7, "ok": True, "ch": False, "teid": 500, "ip": (10 << 24) + 1}
     for off in (M - 1, M - 2, M - 3, 0):
         cases.append({"kind": "est", "cls": "fixed", "access": ACCESS, "retries": retries, "gen_off": off, "gen_used": [0],
                       "conns": [[5], [5], [0, 5, 6]],
@@ -226,6 +235,22 @@ def gen_est_cases(rng, tier, retries):
         cases.append({"kind": "est", "cls": "fixed", "access": ACCESS, "retries": retries, "gen_off": off, "gen_used": [M - 1, 1],
                       "conns": [[1, 2, 3, 1, 1, 2, 3, 4]],
                       "events": [e(0), e(0), e(0), e(0), d(0, 2), e(0), e(0, pdrs=[ch, {"id": 9, "ok": False, "ch": True, "teid": 0, "ip": 0}]), e(0)]})
+    # modification shapes: CHOOSE alone, explicit TEID alone, both (the second session then claims
+    # the first session's TEID and releases it when deleted), a session claiming its own TEID
+    for off in (M - 1, 5):
+        t1 = (off + 1) % U32
+        cases.append({"kind": "est", "cls": "mod", "access": ACCESS, "retries": retries, "gen_off": off, "gen_used": [],
+                      "conns": [[11, 22, 33]],
+                      "events": [e(0), e(0, pdrs=[plain]), md(0, 1, True, 0, 101), md(0, 1, False, t1, 102), d(0, 1), e(0, pdrs=[ch])]})
+        cases.append({"kind": "est", "cls": "mod", "access": ACCESS, "retries": retries, "gen_off": off, "gen_used": [],
+                      "conns": [[11, 22, 33]],
+                      "events": [e(0), md(0, 0, True, t1, 101), e(0, pdrs=[plain]), d(0, 0), e(0, pdrs=[ch])]})
+        cases.append({"kind": "est", "cls": "mod-claim", "access": ACCESS, "retries": retries, "gen_off": off, "gen_used": [],
+                      "conns": [[11, 22, 33], [11]],
+                      "events": [e(0), e(1, pdrs=[plain]), md(1, 0, True, t1, 101), d(1, 0), e(1, pdrs=[ch])]})
+        cases.append({"kind": "est", "cls": "mod-claim", "access": ACCESS, "retries": retries, "gen_off": off, "gen_used": [],
+                      "conns": [[11, 22, 33]],
+                      "events": [e(0), e(0, pdrs=[plain]), md(0, 1, True, (off + 2) % U32 or 1, 101, True), d(0, 1), e(0, pdrs=[ch])]})
     return cases
 
 
@@ -318,6 +343,8 @@ def monitor_est(c, o):
     live_seids = [dict() for _ in range(K)]     # seid -> list of chosen TEIDs
     live_teids = set(u + 1 for u in c["gen_used"])
     drawn = [0] * K
+    claims = [dict() for _ in range(K)]         # seid -> TEIDs named by CHOOSE+explicit-TEID modifications
+    released_claims = set()
     for e, ob in zip(c["events"], o["events"]):
         k = e["k"]
         if ob.get("panic"):
@@ -330,8 +357,13 @@ def monitor_est(c, o):
                     return ("est:del-refused", "deletion of a live session refused")
                 for t in live_seids[k].pop(ob["seid"]):
                     live_teids.discard(t)
+                released_claims |= set(claims[k].pop(ob["seid"], []))
             elif ob["cause"] == CAUSE_ACCEPTED:
                 return ("est:del-unknown-accepted", "deletion of an unknown session accepted")
+        elif e["kind"] == "mod":
+            # nothing is demanded of the modification itself; remember what the session now claims
+            if ob["seid"] in live_seids[k] and ob["mod_stored"] and ob["mod_ch"] and ob["mod_teid"] != 0:
+                claims[k].setdefault(ob["seid"], []).append(ob["mod_teid"])
         else:
             first = draws_at(c["conns"][k], drawn[k], c["retries"])
             all_bad = all(d == 0 or d in live_seids[k] for d in first)
@@ -369,6 +401,9 @@ def monitor_est(c, o):
                     if t == 0:
                         return ("est:teid-zero", f"PDR {x['id']}: chosen TEID 0")
                     if t in live_teids or t in seen:
+                        if t in released_claims and t not in seen:
+                            return ("est:mod-choose-with-explicit-teid:foreign-teid-released",
+                                    f"PDR {x['id']}: TEID {t} belongs to a live session; it was released by the deletion of a session that named it in a modification")
                         return ("est:teid-duplicate", f"PDR {x['id']}: TEID {t} is chosen and not released")
                     seen.add(t)
                     p = byid[x["id"]]
@@ -403,7 +438,12 @@ def monitor_est(c, o):
         marked = set(u + 1 for u in ob["gen_used"])
         chosen_live = set(t for ls in live_seids for ts in ls.values() for t in ts)
         if not chosen_live <= marked:
-            return ("est:live-teid-not-marked", f"TEIDs {sorted(chosen_live - marked)[:4]} of live sessions are not marked used")
+            lost = chosen_live - marked
+            if lost <= released_claims:
+                return ("est:mod-choose-with-explicit-teid:foreign-teid-released",
+                        f"TEIDs {sorted(lost)[:4]} of live sessions were released by the deletion of another session that had named them "
+                        "in a modification (PDI with CHOOSE F-TEID and explicit F-TEID)")
+            return ("est:live-teid-not-marked", f"TEIDs {sorted(lost)[:4]} of live sessions are not marked used")
         if ob["gen_off"] >= M:
             return ("est:cursor-out-of-range", f"cursor {ob['gen_off']}")
     return None
@@ -457,6 +497,8 @@ def coq_est(c, o):
         if e["kind"] == "est":
             ps = glist([f"CPdr {p['id']} {gbool(p['ok'])} {gbool(p['ch'])} {p['teid']} {p['ip']}" for p in e["pdrs"]])
             ev = f"EvEst {g_nat(e['k'])} {gbool(e['aok'])} {gbool(e['dok'])} {ps}"
+        elif e["kind"] == "mod":
+            ev = f"EvMod {g_nat(e['k'])} {ob['seid']} {gbool(ob['mod_stored'] and ob['mod_ch'])} {ob['mod_teid']}"
         else:
             ev = f"EvDel {g_nat(e['k'])} {ob['seid']}"
         batch = "None"
@@ -512,6 +554,9 @@ def branch(c, o):
             if e["kind"] == "est":
                 out.add({CAUSE_ACCEPTED: "est:accepted", CAUSE_NO_RES: "est:no-seid", CAUSE_NO_ASSOC: "est:no-assoc",
                          CAUSE_REJECTED: "est:rejected-dp" if ob["calls"] else "est:rejected-parse"}.get(ob["cause"], "est:other"))
+            elif e["kind"] == "mod":
+                out.add("est:mod-claims" if ob["mod_stored"] and ob["mod_ch"] and ob["mod_teid"] else
+                        ("est:mod-ok" if ob["cause"] == CAUSE_ACCEPTED else "est:mod-refused"))
             else:
                 out.add("est:del-ok" if ob["cause"] == CAUSE_ACCEPTED else "est:del-unknown")
     return out
@@ -607,27 +652,60 @@ def run(tier, seed, replay=None):
     except RuntimeError as e:
         ck.tie(name, False, str(e)[-800:])
     # concurrent stress under the race detector (search support, not proof)
+    conc_in = None
     if replay is None:
+        runs = 6 if tier == "quick" else 40
+        conc_in = []
+        for i in range(runs):
+            off = rng.choice([M - 50, M - 500, M - 1, 0])
+            conc_in.append({"G": 16, "Iters": 300 if tier == "quick" else 3000, "Seed": rng.randrange(1 << 30), "Off": off,
+                            "Used": sorted(set((off + rng.randrange(0, 200)) % M for _ in range(rng.randrange(0, 60))))})
+    else:
+        rc_in = json.load(open(replay))["case"].get("input")
+        if isinstance(rc_in, dict) and "G" in rc_in:
+            conc_in = [rc_in]
+        elif isinstance(rc_in, list):
+            conc_in = rc_in
+    if conc_in:
         try:
             rb = build_harness(race=True)
-            runs = 6 if tier == "quick" else 40
-            cin = []
-            for i in range(runs):
-                off = rng.choice([M - 50, M - 500, M - 1, 0])
-                cin.append({"G": 16, "Iters": 300 if tier == "quick" else 3000, "Seed": rng.randrange(1 << 30), "Off": off,
-                            "Used": sorted(set((off + rng.randrange(0, 200)) % M for _ in range(rng.randrange(0, 60))))})
-            cobs = run_harness(rb, "c07_conc", cin, tag="c07_conc")
-            ck.notes["concurrent_stress"] = {"runs": runs, "goroutines": 16, "allocs": sum(o.get("allocs", 0) for o in cobs)}
-            for ci, o in zip(cin, cobs):
+            rc, txt, cobs = run_conc(rb, conc_in)
+            ck.notes["concurrent_stress"] = {"runs": len(conc_in), "goroutines": 16, "allocs": sum(o.get("allocs", 0) for o in cobs)}
+            for ci, o in zip(conc_in, cobs):
                 ck.evaluations += 1
                 if "panic" in o:
                     ck.fail("conc:panic", "panic under concurrency: " + o["panic"], {"input": ci})
                 elif o.get("violations"):
                     ck.fail("conc:" + o["violations"][0], "concurrent stress: " + "; ".join(o["violations"]), {"input": ci, "impl": o})
+            if "DATA RACE" in txt or "fatal error: concurrent map" in txt:
+                i = txt.find("DATA RACE") if "DATA RACE" in txt else txt.find("fatal error: concurrent map")
+                ck.fail("conc:data-race", "race detector / runtime report in the FTEIDGenerator stress (16 goroutines)",
+                        {"input": conc_in, "log": txt[max(0, i - 100):i + 2500]})
+            elif rc != 0 or len(cobs) != len(conc_in):
+                ck.tie("race-enabled harness runs the stress to completion", False, txt[-1500:])
         except HarnessError as e:
-            txt = str(e)
-            if "DATA RACE" in txt or "concurrent map" in txt:
-                ck.fail("conc:data-race", "race detector / runtime report in the FTEIDGenerator stress (16 goroutines)", {"log": txt[-3000:]})
-            else:
-                ck.tie("race-enabled harness builds and runs", False, txt[-1500:])
+            ck.tie("race-enabled harness builds", False, str(e)[-1500:])
     return ck.finish()
+
+
+def run_conc(binary, inputs, timeout=1200):
+    """like lib.run_harness, but keeps the whole output: a race report or a runtime abort
+    (`fatal error: concurrent map writes`) is the observation"""
+    os.makedirs(os.path.join(BUILD, "io"), exist_ok=True)
+    fin = os.path.join(BUILD, "io", "c07_conc.in.jsonl")
+    fout = os.path.join(BUILD, "io", "c07_conc.out.jsonl")
+    with open(fin, "w") as f:
+        for c in inputs:
+            f.write(json.dumps(c, separators=(",", ":")) + "\n")
+    if os.path.exists(fout):
+        os.remove(fout)
+    env = go_env()
+    env.update({"VERIF_MODE": "c07_conc", "VERIF_IN": fin, "VERIF_OUT": fout})
+    rc, txt = sh([binary, "-test.run", "^TestVerifHarness$", "-test.count=1", "-test.timeout", f"{timeout}s"],
+                 cwd=os.path.join(REPO, "pfcpiface"), env=env, timeout=timeout + 30)
+    obs = []
+    if os.path.exists(fout):
+        for line in open(fout):
+            if line.strip():
+                obs.append(json.loads(line))
+    return rc, txt, obs
